@@ -34,7 +34,7 @@ INVS = {
 
 
 def neg(n):
-    return {0: 'Z0', -1: 'M1', -2: 'M2', -3: 'M3', -4: 'M4', -12: 'M12', -20: 'M20'}[n]
+    return {0: 'Z0', -1: 'M1', -2: 'M2', -3: 'M3', -4: 'M4', -5: 'M5', -12: 'M12', -20: 'M20'}[n]
 
 
 def proj_box(b):
